@@ -13,7 +13,12 @@ import (
 	"verif/engine/internal/core"
 )
 
+// keepAlive holds the original standard files: dropping the last reference to os.Stdout / os.Stderr
+// lets their finalizers close fd 1 / fd 2, and the runtime's crash reports then go nowhere.
+var keepAlive []*os.File
+
 func main() {
+	keepAlive = append(keepAlive, os.Stdout, os.Stderr)
 	if len(os.Args) < 2 {
 		fmt.Println("usage: vcheck <Cxx> --tier quick|thorough")
 		os.Exit(2)
